@@ -9,6 +9,7 @@
 import AcnProofs.Lemmas.SortedGreedy
 import AcnProofs.Lemmas.SortedRR
 import AcnProofs.Lemmas.SortedOpt
+import AcnProofs.Lemmas.FeasConvex
 import AcnModel.Gen.Consts
 
 set_option linter.unusedSectionVars false
@@ -112,6 +113,16 @@ theorem bisection_within_eps (feas : List K → Bool) (fuel : Nat) (i : Nat) (ub
     obtain ⟨h1, h2⟩ := bisect_bracket feas sched i eps heps hint fuel lb ub hle hfuel hl hub
     have hr := bisect_range feas sched i eps (le_of_lt heps) fuel lb ub
     exact ⟨h1, hr.1, by simpa [max_eq_right hle] using hr.2, h2⟩
+
+/-- `feasible_set_is_interval`: the hypothesis `IntervalFeasible` holds for the phasor check the
+    algorithms actually use (`algFeasible`, any matrix incl. mixed signs, any limits, unit phasors
+    or not, any tolerances): each constraint is a convex quadratic in one coordinate
+    (`Acn.Feas.algFeasible_interval`, owned by C06). -/
+theorem feasible_set_is_interval (M : List (List K)) (lims c s : List K) (vt rt : K)
+    (sched : List K) (i : Nat) :
+    IntervalFeasible (Acn.Feas.algFeasible M lims c s vt rt) sched i := by
+  intro x y z hxy hyz hx hz
+  exact Acn.Feas.algFeasible_interval M lims c s vt rt sched i x z y hxy hyz hx hz
 
 /-- the hypotheses of `bisection_within_eps` are satisfiable: one coordinate, limit 7 -/
 example :
